@@ -139,7 +139,7 @@ func lexSpec(src string) ([]stok, error) {
 			toks = append(toks, stok{"str", src[i : j+1], i})
 			i = j + 1
 		default:
-			ops := []string{"<==>", "==>", "::", ":=", "==", "!=", "<=", ">=", "&&", "||", "++", "<<", ">>", "&^"}
+			ops := []string{"<==>", "===", "==>", "::", ":=", "==", "!=", "<=", ">=", "&&", "||", "++", "<<", ">>", "&^"}
 			matched := false
 			for _, op := range ops {
 				if strings.HasPrefix(src[i:], op) {
@@ -297,7 +297,12 @@ func (sp *specParser) parseImpl() *Expr {
 	}
 	if sp.isOp("<==>") {
 		sp.next()
-		r := sp.parseOr()
+		var r *Expr
+		if sp.isID("forall") || sp.isID("exists") {
+			r = sp.parseExpr()
+		} else {
+			r = sp.parseOr()
+		}
 		return &Expr{Kind: EBin, Op: "<==>", Args: []*Expr{l, r}}
 	}
 	if sp.isOp("?") {
@@ -346,7 +351,7 @@ func (sp *specParser) parseCmp() *Expr {
 	l := sp.parseAdd()
 	for {
 		t := sp.peek()
-		if t.kind == "op" && (t.text == "==" || t.text == "!=" || t.text == "<" || t.text == "<=" || t.text == ">" || t.text == ">=") {
+		if t.kind == "op" && (t.text == "==" || t.text == "===" || t.text == "!=" || t.text == "<" || t.text == "<=" || t.text == ">" || t.text == ">=") {
 			sp.next()
 			r := sp.parseAdd()
 			l = &Expr{Kind: EBin, Op: t.text, Args: []*Expr{l, r}}
